@@ -4,26 +4,27 @@ import json, base64, math, struct, os, subprocess
 PROPS = ["C02/Props.v"]
 META = dict(
     text="Rocq theorems over an executable model of the title-line machinery. Round 2: the JSON decoder is inside the model (an executable parser jparse: white space, "
-         "every escape of the basic plane, number tokens checked against the JSON grammar) and is proved to invert the marshaller on every well-formed value, so the header, "
+         "every escape incl. surrogate pairs, number tokens checked against go-json's grammar) and is proved to invert the marshaller on every well-formed value with valid-UTF-8 strings, so the header, "
          "FASTA/FASTQ round-trip and write-fixed-point theorems carry no hypothesis on the decoder (json and guessed parser, records with or without annotations); "
          "decoding into a Go map (members by key, last repeated key wins, numbers as float64) is modelled and proved canonical, and 're-parsing a formatted header never changes "
          "or loses annotations' is proved at full strength for ANY title line the parser accepts (C02_reparse_keeps_annotations / _record: text before/after the object, "
-         "definition appended). The number path token -> float64 -> token is transcribed for integer tokens: integers |x| <= 2^53 are proved fixed points, 2^53+1 is not. "
+         "definition appended). The number path token -> float64 -> token is transcribed for every number token; integers |x| <= 2^53 are proved fixed points, 2^53+1 is not. "
+         "The marshaller's UTF-8 validation is modelled: invalid UTF-8 provably breaks the round trip (C02_invalid_utf8_refuted), valid UTF-8 is an explicit premise. "
          "As before: the repaired brace/quote scanner delimits exactly the serialised object, folding, quality offsets, byte automata of the chunk parsers on whole batches. "
          "On every run random records and free-style JSON title lines (white space, shuffled/repeated keys, alternative escapes, integers up to 25 digits, numbers at and "
          "beyond 2^53, Unicode blanks after the object) go through the REAL writer / chunk parser / header parsers / go-json decode+encode; a Python oracle checks record equality, "
          "exact integers up to 2^53, the byte-identical second write, every input/output quality-offset pair and `obiconvert` (default, --input-json-header, --solexa); the model "
          "(jparse, map decoder, number path included) is evaluated by vm_compute on the same inputs.",
     note="Trusted: Coq kernel + vm_compute; harness/generators. go-json is no longer a hypothesis of the theorems but the tie between it and jparse/jdec is by correspondence (every "
-         "generated value and title line: go-json decode + encode = model), one-directional on free text: what the model accepts go-json accepts with the same result; go-json is more lenient "
-         "(01, 1., -.5, surrogate escapes: not modelled, the model refuses). Number path: transcribed for every JSON number token (exact decimal -> nearest float64 -> shortest decimal -> go-json layout) and compared with "
+         "generated value and title line: go-json decode + encode = model), one-directional on free text: what the model accepts go-json accepts with the same result; the number grammar is go-json's (JSON's plus 01, 1., -.5), "
+         "surrogate escapes are modelled (a lone one reads as U+FFFD); go-json may still be more lenient elsewhere (then the model refuses and nothing is compared). Number path: transcribed for every JSON number token (exact decimal -> nearest float64 -> shortest decimal -> go-json layout) and compared with "
          "the real ParseFloat/AppendFloat64 on every generated number (any spelling: 2.50, 1E5, 25-digit integers, subnormals); proved only for integer tokens: |x| <= 2^53 are fixed points "
          "(that an integral float64 below 2^53 prints as its decimal digits is transcribed from strconv's contract, not derived from its algorithm). That a token produced by the encoder "
          "for a float is a fixed point of read-then-write is NOT proved (shortest-digits round trip): it is the decidable premise numfixed of the float64 theorems, evaluated in Coq on every generated value. Invalid UTF-8 in strings is outside the claim (it speaks of Unicode strings) but, since round 2, inside the model: decided on the real code - the marshaller writes each bad byte as "
          "the 6 characters \\ufffd, the reader returns U+FFFD, the next write emits it raw, so the value changes and the first re-write is NOT byte-identical (stable afterwards): "
          "C02_invalid_utf8_refuted, and utf8v (all strings valid UTF-8) is an explicit premise of every theorem that goes through the decoder; measured on every run (coverage.invalid_utf8). "
          "Not modelled: the OBI-style header parser beyond the empty definition (guessed parser on a title not starting with a brace), a non-string 'definition' member followed by text, "
-         "surrogate \\u escapes, raw NUL in strings (go-json refuses it). The chunk splitter belongs to C01 (exercised through obiconvert). Quality offsets on the command line: only --solexa "
+         "numbers beyond the float64 range (the reader dies), raw NUL in strings (go-json refuses it). The chunk splitter belongs to C01 (exercised through obiconvert). Quality offsets on the command line: only --solexa "
          "(input 64) exists; output 64 is reachable programmatically only and is covered through the library calls. Defect fixed in round 1: escaped quotes in the title-line scanner.")
 TRUSTED = ["go-json decoder/encoder vs the model's jparse / jdec renum64 / ser: tied by correspondence on every generated value, record and free-style title line (CSer, CDec, CHdr), not by proof; "
            "on free text one direction only (model accepts => go-json accepts, same annotations)",
@@ -234,7 +235,7 @@ def gen_jtext_value(rng, depth=0):
             return ("num", rng.choice(GO_FLOAT_TOKENS))
         if r < 0.9:
             # any spelling of a decimal number: the reader makes a float64 of it, the writer prints the shortest digits
-            t = ("-" if rng.random() < 0.3 else "") + str(rng.randrange(0, 10 ** rng.randrange(1, 20)))
+            t = ("-" if rng.random() < 0.3 else "") + ("0" if rng.random() < 0.1 else "") + str(rng.randrange(0, 10 ** rng.randrange(1, 20)))
             if rng.random() < 0.7:
                 t += "." + "".join(rng.choice("0123456789") for _ in range(rng.randrange(1, 20)))
             if rng.random() < 0.5:
@@ -242,7 +243,8 @@ def gen_jtext_value(rng, depth=0):
             return ("num", t.encode())
         return ("num", rng.choice([b"2.50", b"1E5", b"1e5", b"0.10", b"100e-2", b"1.0", b"0e0", b"1e-7", b"0.000001", b"0.0000009999", b"1e21", b"999999999999999999999.9",
                                    b"4.35", b"0.3", b"5e-324", b"2e-324", b"1.7976931348623157e308", b"4.9406564584124654e-324", b"2.2250738585072014e-308", b"9007199254740993.0",
-                                   b"9007199254740992.5", b"0.1e1", b"123456789.123456789"]))
+                                   b"9007199254740992.5", b"0.1e1", b"123456789.123456789",
+                                   b"1.", b"-.5", b"01", b"00", b"1.e5", b"0.", b"007.250", b"-01", b"0e5"]))          # the last ones: not JSON, but go-json reads them
     if k < 0.6:
         return ("str", gen_text(rng, 6, blanks=rng.random() < 0.5))
     if k < 0.7:
@@ -1020,7 +1022,7 @@ def cli_stage(ctx, cases, obs, broken):
 
 
 def run(ctx, broken):
-    n_rt, n_scan, n_enc = (220, 400, 150) if ctx.quick else (6000, 20000, 4000)
+    n_rt, n_scan, n_enc = (220, 400, 150) if ctx.quick else (5000, 12000, 3000)
     cases = gen_cases(ctx, n_rt, n_scan, n_enc)
     scope = 4 if ctx.quick else 6
     ex = exhaustive_scan_cases(scope)
